@@ -136,6 +136,8 @@
 mod checker;
 mod has_discoveries;
 mod job_market;
+#[cfg(getong_stateright_verif)]
+pub use job_market::JobBrokerFacade;
 pub mod report;
 use std::fmt::Debug;
 use std::hash::{Hash, Hasher};
@@ -148,6 +150,8 @@ pub use checker::*;
 pub use has_discoveries::HasDiscoveries;
 pub mod semantics;
 pub mod util;
+#[cfg(getong_stateright_verif)]
+pub mod verif_hooks;
 
 /// This is the primary abstraction for Stateright. Implementations model a
 /// nondeterministic system's evolution. If you are using Stateright's actor framework,
@@ -346,6 +350,12 @@ fn fingerprint<T: Hash>(value: &T) -> Fingerprint {
     let mut hasher = stable::hasher();
     value.hash(&mut hasher);
     Fingerprint::new(hasher.finish()).expect("hasher returned zero, an invalid fingerprint")
+}
+
+/// Gives an external simulator access to the crate-private [`fingerprint`].
+#[cfg(getong_stateright_verif)]
+pub fn verif_fingerprint<T: Hash>(value: &T) -> u64 {
+    fingerprint(value).get()
 }
 
 /// Implemented only for rustdoc. Do not take a dependency on this. It will likely be removed in a
